@@ -888,6 +888,9 @@ func (f *Factory) Select(arr, idx *Term) *Term {
 		}
 		break
 	}
+	if arr.Op == OApp && strings.HasPrefix(arr.Name, "constarr_") && len(arr.Args) == 1 {
+		return arr.Args[0] // the constant array of a zero-initialised allocation: every entry is that constant
+	}
 	es := elemSort(arr.S)
 	return f.intern(&Term{Op: OSelect, Args: []*Term{arr, idx}, S: es})
 }
